@@ -14,7 +14,7 @@ structure NetPacket where
 /-- `NetPacket(stream)`: 12-byte header (size, type, time; little-endian), then
 `stream.read(size)`. A header cut short raises `struct.error`. -/
 def readNetPacket (bs : Bytes) : Except Err (NetPacket × Bytes) :=
-  if bs.length < 12 then .error .short
+  if (bs.drop 11).isEmpty then .error .short      -- fewer than 12 bytes left (O(1) test)
   else
     let size := leNat (bs.take 4)
     let ty := leNat ((bs.drop 4).take 4)
@@ -27,7 +27,12 @@ theorem readNetPacket_shorter {bs : Bytes} {p : NetPacket} {rest : Bytes}
   unfold readNetPacket at h
   split at h
   · cases h
-  · simp only [Except.ok.injEq, Prod.mk.injEq] at h
+  · rename_i hne
+    have hlen : 11 < bs.length := by
+      rcases Nat.lt_or_ge 11 bs.length with h1 | h1
+      · exact h1
+      · exact absurd (by simp [List.drop_eq_nil_of_le h1]) hne
+    simp only [Except.ok.injEq, Prod.mk.injEq] at h
     rw [← h.2]
     simp only [List.length_drop]
     omega
